@@ -11,7 +11,9 @@ UNICODE_POOL = "aé€\U0001d4b3 ."  # no NUL: NumPy fixed-width strings strip t
 def alphabet(draw, amino_only=False):
     if amino_only:
         return draw(st.sampled_from(["AC", "ACD", "CDE", "AWY", "ACDE", AA, AA, AA]))
-    return draw(st.sampled_from(["A", "AC", "ACD", "ACDE", AA, AA, AA, UNICODE_POOL]))
+    # "any alphabet": besides upper-case residues, letters that a normalising step (case folding, stripping, Unicode
+    # normalisation) would merge or remove although they are different code points
+    return draw(st.sampled_from(["A", "AC", "ACD", "ACDE", AA, AA, AA, AA, UNICODE_POOL, "AaCc", " A\tC", "e\u0301\u00e9"]))
 
 
 def _edit(draw, s, alpha, allow_indel=True):
@@ -180,4 +182,52 @@ def planted_neighbours(seqs, families, k, dist):
                     d = dist(seqs[a], seqs[b])
                     if d <= k:
                         out.append((a, b, d))
+    return out
+
+
+# ---------------------------------------------------------------------------
+# dense collections: every single substitution of a few founders (hundreds of mutual neighbours; exact distances known)
+# ---------------------------------------------------------------------------
+DENSE_FOUNDERS = ["CASSLGQAYEQY", "CAWTRDNPKFHM", "CVVNDYKLSIRG"]      # pairwise Hamming = Levenshtein distance >= 9
+
+
+def dense_collection(n_founders=1, per_founder=None, step=1):
+    """(seqs, meta): meta[i] = (founder index, position or -1 for the founder itself, letter). Two members of one founder's
+    family are at Levenshtein (= Hamming) distance 1 if founder/mutant or same position, else 2 (equal length, two differing
+    positions); members of different families are >= 7 apart."""
+    seqs, meta = [], []
+    for fi, f in enumerate(DENSE_FOUNDERS[:n_founders]):
+        fam = [(f, (fi, -1, ""))]
+        for i in range(len(f)):
+            for a in AA:
+                if a != f[i]:
+                    fam.append((f[:i] + a + f[i + 1:], (fi, i, a)))
+        fam = fam[::step]
+        if per_founder:
+            fam = fam[:per_founder]
+        for s, m in fam:
+            seqs.append(s)
+            meta.append(m)
+    return seqs, meta
+
+
+def dense_distance(ma, mb):
+    """Exact Levenshtein distance between two members of a dense collection, or None when they belong to different founders."""
+    if ma[0] != mb[0]:
+        return None
+    if ma == mb:
+        return 0
+    if ma[1] == -1 or mb[1] == -1 or ma[1] == mb[1]:
+        return 1
+    return 2
+
+
+def dense_neighbours(meta, k):
+    out = []
+    for i, a in enumerate(meta):
+        for j, b in enumerate(meta):
+            if i != j:
+                d = dense_distance(a, b)
+                if d is not None and d <= k:
+                    out.append((i, j, d))
     return out
